@@ -225,6 +225,28 @@ def c056(ctx):
             continue
         heads = [h for h in P.call_points(f, r"Iterator>::next$") if P.reach(f, P.after(f, h), [h])]
         calls = [p_ for p_ in P.call_points(f, r"sst::gc::Determiner::retain$|Determiner>::retain$")]
+        folds = P.call_points(f, r"Iterator>?::fold$")
+        if not heads and folds:
+            # the same loop as `children.iter_mut().fold(init, |acc, d| acc | d.retain(..))`: fold visits every element, the closure asks its
+            # child on every path and combines with the non-short-circuiting operator
+            cl = [g for g in ctx.prog.closures_of(f) if P.call_points(g, r"sst::gc::Determiner::retain$|Determiner>::retain$")]
+            t_ = P.term_at(f, folds[0])
+            ity = t_.get("ga") or ""
+            inits = {c_.get("v") for c_ in P.origin_consts(f, t_["args"][1])}
+            ok = len(cl) == 1 and not K.DROPPING_ADAPTERS.search(ity) and inits == {init}
+            if ok:
+                g = cl[0]
+                gc_ = P.call_points(g, r"sst::gc::Determiner::retain$|Determiner>::retain$")
+                ok = P.must_pass(g, gc_, goals=P.return_points(g)) is None
+                ops_ = {s_["op"] for s_ in P.origins(g, {"k": "copy", "pl": {"l": 0, "p": []}}) if s_["k"] == "bin"}
+                ok = ok and ops_ == {op}
+                for c_ in gc_:
+                    tt_ = P.term_at(g, c_)
+                    # the entry handed to the child is the captured (key, tombstones, exists): none of it is the accumulator or a constant
+                    ok = ok and not any(s_["k"] == "const" for a_ in tt_["args"][1:] for s_ in P.origins(g, a_))
+            ctx.check(R, f, "every-child-consulted", ok, "%s::retain folds over every child with %s from %s, asking each child on every path" % (name, op, bool(init)),
+                      "%s::retain folds over its children, but not as `fold(%s, |acc, d| acc %s d.retain(entry))` over all of them" % (name, bool(init), "|" if op == "BitOr" else "&"))
+            continue
         ctx.floor(R, name + " child loop", len(heads), 1)
         for h in heads:
             q = P.reach(f, P.after(f, h), [h], avoid=set(calls))
@@ -261,11 +283,33 @@ def c056(ctx):
         # the key-changed edge: comparison of self.key with the key parameter
         kc = [b for b in P.switch_blocks(f) if any(s_["k"] == "call" and re.search(r"::(ne|eq)$", s_["callee"]) for s_ in K.cond_sources(f, b.idx))]
         ctx.floor(R, "VersionsDeterminer key-change test", len(kc), 1)
-        ctx.check(R, f, "count-restarts", sorted(v for _w, v in consts) == [1, 2] and len(incs) >= 2,
+        # the restart may be written `let versions = if tombstones.is_empty() { 1 } else { 2 }; .. self.count = versions`
+        restart_vals = set(v for _w, v in consts)
+        via_local = False
+        for w in cw:
+            st = f.blocks[w[0]].st[w[1]]
+            if st["rv"]["r"] == "use" and st["rv"]["a"].get("k") in ("copy", "move"):
+                srcs_ = P.origins(f, st["rv"]["a"])
+                if srcs_ and all(s_["k"] == "const" for s_ in srcs_):
+                    restart_vals |= {s_.get("v") for s_ in srcs_}
+                    via_local = True
+        ctx.check(R, f, "count-restarts", (sorted(v for _w, v in consts) == [1, 2] and len(incs) >= 2) or (via_local and restart_vals == {1, 2} and len(incs) >= 1),
                   "on a new key the count restarts at 1 (value) or 2 (tombstoned); on the same key it is incremented",
                   "VersionsDeterminer no longer restarts its count per key (constant stores %s, increments %d)" % (sorted(v for _w, v in consts), len(incs)))
         # the deciding entry: new key without tombstones -> retained unconditionally
         tt = [t_ for t_ in (P.switch_table(f) or []) if t_[1] == ("const", 1)]
+        if not tt and via_local:
+            # no constant-true path, but the restart value 1 is compared with a NonZero number: `1 <= number.get()` always holds
+            le = [s_ for s_ in P.origins(f, {"k": "copy", "pl": {"l": 0, "p": []}}) if s_["k"] == "bin" and s_["op"] == "Le"]
+            nz = any(x["k"] == "call" and re.search(r"NonZero.*::get$", x["callee"]) for s_ in le for x in P.origins(f, s_["st"]["rv"]["b"]))
+            lhs_count = any(x["k"] == "field" and x["f"] == "count" for s_ in le for x in P.origins(f, s_["st"]["rv"]["a"]))
+            one_on_empty = False
+            for b in f.blocks:
+                for i, st in enumerate(b.st):
+                    if st["s"] == "=" and st["rv"].get("r") == "use" and st["rv"]["a"].get("k") == "const" and st["rv"]["a"]["c"].get("v") == 1 and f.locals[st["lhs"]["l"]] in ("u64", "usize"):
+                        if K.guarded_by_call(f, (b.idx, i), r"::is_empty$", label="sw:1") is not None:
+                            one_on_empty = True
+            tt = [1] if (le and nz and lhs_count and one_on_empty) else []
         ctx.check(R, f, "newest-live-retained", bool(tt), "the first version of a key with no tombstone above it is retained unconditionally (a constant true path)",
                   "no path of VersionsDeterminer::retain returns true unconditionally: the entry that decides a key's current value can be dropped")
         # every other path compares count with the configured number
@@ -310,6 +354,14 @@ def c0510(ctx):
             q = None
             for h in heads:
                 q = q or P.reach(f, P.after(f, h), [h], avoid=set(calls))
+            if not calls and not heads:
+                # the loop written as an iterator adaptor that visits every element (`for_each`, `fold`, ..) with a closure that passes the
+                # call on, on every path
+                vis = [p_ for p_ in P.call_points(f, r"Iterator>?::(for_each|fold|try_for_each|try_fold)$") if not K.DROPPING_ADAPTERS.search(P.term_at(f, p_).get("ga") or "")]
+                cl = [g for g in ctx.prog.closures_of(f) if [p_ for p_ in P.call_points(g, r"sst::gc::Determiner::%s$" % re.escape(m)) if P.term_at(g, p_).get("rk") == "virtual"]]
+                if vis and len(cl) == 1 and P.must_pass(cl[0], P.call_points(cl[0], r"sst::gc::Determiner::%s$" % re.escape(m)), goals=P.return_points(cl[0])) is None:
+                    ctx.ok(R, f, "%s::%s passes the call to every child through an iterator adaptor" % (imp["self"].rsplit("::", 1)[-1], m))
+                    continue
             ctx.check(R, f, "forwards:" + m, bool(calls) and bool(heads) and q is None, "%s::%s calls every child's %s" % (imp["self"].rsplit("::", 1)[-1], m, m),
                       "%s::%s does not pass the call on to every child" % (imp["self"], m), path=q)
 
